@@ -404,7 +404,7 @@ type verifC39World struct {
 	tasks     map[string]metadb.ChannelMigrationTask // channel-migration tasks created in hash slot 7, by channel
 	now       int64
 	fenceIdx  uint64
-	pendFwd   *multiraft.Command
+	fwds      []multiraft.Command // what the source state machine handed to the forwarder during the last apply
 	cleaned   bool
 
 	nPreWrites, nDeltaWrites, nFenced, nDoneWrites, nDup, nDupInBatch, nDupAfterSwitch, nLive, nLiveDropped       int
@@ -413,6 +413,9 @@ type verifC39World struct {
 	sinceRestartT                                                                                                 bool
 	nOvertake, nDelayed, nLateFwd, nLateFwdDup, nAckOverUndelivered, nAckGap                                      int
 	nMixed, nSplitFirst, nSplitDup, nCondOK, nFaultErr, nFaultFirst, nFaultSame, nFaultRestart, nFaultPartial     int
+	nSrcBatch, nFenceWithLaterH, nFenceWithEarlierH, nFenceWithReFence, nAckInBatch, nAckThenWrite                int
+	nLatest, nLatestBatchDelta, nLatestSplitDelta, nLatestSplitFirst, nLatestCtlEnvelope, nLatestBatchFenced      int
+	nLatestSplitNewOwner                                                                                          int
 	log                                                                                                           []string
 }
 
@@ -441,18 +444,266 @@ func (w *verifC39World) installSourceHooks() {
 			}
 			c := cmd
 			c.Data = append([]byte(nil), cmd.Data...)
-			w.pendFwd = &c
+			w.fwds = append(w.fwds, c)
 			return nil
 		})
 	}
 }
 
-// srcApply applies one ordinary command at the source.
+// srcApply applies one command at the source (its own apply batch).
 func (w *verifC39World) srcApply(hs uint16, data []byte) (string, error) {
 	w.sIdx++
-	w.pendFwd = nil
+	w.fwds = nil
 	res, err := w.src.Apply(context.Background(), multiraft.Command{SlotID: verifC39Src, HashSlot: hs, Index: w.sIdx, Term: 1, Data: data})
 	return string(res), err
+}
+
+// ---- source-side apply batches
+//
+// The source's Raft group hands committed entries to the state machine in
+// batches, so ordinary writes of the migrating hash slot, writes of the other
+// hash slot the source owns, the enter-fence command, a re-issued fence and
+// replicated outbox acks can share one ApplyBatch call in any order. The
+// reference is sequential: every command behaves as if it had been applied on
+// its own, in batch order.
+
+type verifC39SrcItem struct {
+	kind   string // write | fence | refence | ack
+	wr     verifC39Write
+	fwd    int // what happens to the live forward of the outbox row this command produces
+	data   []byte
+	ackPos int
+}
+
+func (it verifC39SrcItem) String() string {
+	switch it.kind {
+	case "write":
+		return it.wr.String()
+	case "ack":
+		return fmt.Sprintf("ack[%d]", it.ackPos)
+	}
+	return it.kind
+}
+
+func (w *verifC39World) fenceData() []byte {
+	if w.capture {
+		return EncodeEnterFenceCommand(verifC39H)
+	}
+	return EncodeEnterFenceCommandForTarget(verifC39H, verifC39Tgt)
+}
+
+// genSrcItem draws one command that may accompany others in a source batch.
+// fenced: the command is ordered after the fence (of this batch or an earlier one).
+func (w *verifC39World) genSrcItem(fenced bool, ackTaken map[int]bool) verifC39SrcItem {
+	rt := w.rt
+	switch v := rapid.IntRange(0, 9).Draw(rt, "srcItemKind"); {
+	case v < 6:
+	case v < 8:
+		return verifC39SrcItem{kind: "write", wr: verifC39GenWrite(rt, &w.serial, verifC39Ctl, -1)}
+	case v == 8 && fenced:
+		data := EncodeEnterFenceCommandForTarget(verifC39H, verifC39Tgt)
+		if w.capture && rapid.Bool().Draw(rt, "plainFence") {
+			data = EncodeEnterFenceCommand(verifC39H)
+		}
+		return verifC39SrcItem{kind: "refence", data: data}
+	default:
+		var cand []int
+		for p := range w.outbox {
+			if w.applied[p] && !w.acked[p] && !ackTaken[p] {
+				cand = append(cand, p)
+			}
+		}
+		if len(cand) > 0 && !w.cleaned {
+			p := rapid.SampledFrom(cand).Draw(rt, "batchAckPos")
+			ackTaken[p] = true
+			return verifC39SrcItem{kind: "ack", ackPos: p,
+				data: EncodeAckHashSlotMigrationOutboxCommand(verifC39H, verifC39Src, verifC39Tgt, w.outbox[p].idx)}
+		}
+	}
+	return verifC39SrcItem{kind: "write", wr: verifC39GenWrite(rt, &w.serial, verifC39H, int(verifC39Ctl)), fwd: w.drawFwd("liveForward")}
+}
+
+// srcBatch applies the commands in ONE ApplyBatch call at the source (which
+// still owns the migrating hash slot) and judges every result, the source rows,
+// the outbox, the migration state and the forwarder calls.
+func (w *verifC39World) srcBatch(items []verifC39SrcItem) {
+	rt := w.rt
+	if w.phase == 3 {
+		for _, it := range items {
+			if it.kind != "write" || it.wr.touches(verifC39H) {
+				rt.Fatalf("VERIF-MACHINERY harness sent %s to the old owner as an owner command", it)
+			}
+		}
+	}
+	cmds := make([]multiraft.Command, len(items))
+	descr := make([]string, len(items))
+	for i, it := range items {
+		w.sIdx++
+		hs, data := verifC39H, it.data
+		if it.kind == "write" {
+			hs, data = it.wr.envelope(), it.wr.encode()
+		} else if it.kind == "fence" {
+			data = w.fenceData()
+		}
+		cmds[i] = multiraft.Command{SlotID: verifC39Src, HashSlot: hs, Index: w.sIdx, Term: 1, Data: data}
+		descr[i] = it.String()
+	}
+	w.fwds = nil
+	out, err := w.src.ApplyBatch(context.Background(), cmds)
+	if len(items) > 1 {
+		w.nSrcBatch++
+		w.log = append(w.log, "SBATCH"+fmt.Sprint(descr))
+	}
+	if err != nil {
+		w.fail("owner refused the apply batch %v with error %v", descr, err)
+	}
+	if len(out) != len(cmds) {
+		w.fail("source batch of %d commands answered %d results", len(cmds), len(out))
+	}
+
+	type expFwd struct{ pos, mode int }
+	var forwards []expFwd
+	ph, fencedHere, ctlTouched, stopFence := w.phase, false, false, false
+	hBeforeFence, ackSeen := 0, false
+	for i, it := range items {
+		res, idx := string(out[i]), cmds[i].Index
+		switch it.kind {
+		case "write":
+			wr := it.wr
+			if !wr.touches(verifC39H) {
+				// the hash slot that does not migrate is never fenced and never forwarded
+				w.log = append(w.log, "ctl:"+wr.String())
+				if res == ApplyResultHashSlotFenced || res == ApplyResultStaleMeta {
+					w.fail("write %s to the non-migrating hash slot %d answered %q", wr, verifC39Ctl, res)
+				}
+				w.ctl.apply(wr)
+				ctlTouched = true
+				w.nCtl++
+				continue
+			}
+			if ph == 2 {
+				w.log = append(w.log, "S!"+wr.String())
+				if res != ApplyResultHashSlotFenced {
+					w.fail("write %s ordered after the fence (index %d, batch %v) answered %q, want %q", wr, w.fenceIdx, descr, res, ApplyResultHashSlotFenced)
+				}
+				w.nFenced++
+				ctlTouched = ctlTouched || wr.touches(verifC39Ctl)
+				if fencedHere {
+					w.nFenceWithLaterH++
+				}
+				if wr.kind == "latestBatch" {
+					w.nLatestBatchFenced++
+				}
+				continue
+			}
+			w.log = append(w.log, "S:"+wr.String())
+			if res == ApplyResultHashSlotFenced || res == ApplyResultStaleMeta {
+				w.fail("write %s before the fence answered %q (batch %v)", wr, res, descr)
+			}
+			w.model.apply(wr)
+			if wr.touches(verifC39Ctl) {
+				w.ctl.apply(wr)
+				ctlTouched = true
+			}
+			hBeforeFence++
+			if ackSeen {
+				w.nAckThenWrite++
+			}
+			if wr.kind == "latest" || wr.kind == "latestBatch" {
+				w.nLatest++
+			}
+			if ph == 0 {
+				w.nPreWrites++
+				continue
+			}
+			w.nDeltaWrites++
+			if wr.kind == "latestBatch" {
+				w.nLatestBatchDelta++
+				if wr.splitRows(verifC39H) {
+					w.nLatestSplitDelta++
+				}
+				if wr.envelope() != verifC39H {
+					w.nLatestCtlEnvelope++
+				}
+			}
+			wrCopy := wr
+			w.outbox = append(w.outbox, verifC39Row{idx: idx, data: cmds[i].Data, write: &wrCopy})
+			w.applied = append(w.applied, false)
+			w.acked = append(w.acked, false)
+			if w.fwdOn {
+				forwards = append(forwards, expFwd{len(w.outbox) - 1, it.fwd})
+			}
+		case "fence":
+			if ph >= 2 {
+				rt.Fatalf("VERIF-MACHINERY harness issued the first fence twice")
+			}
+			if res != ApplyResultOK {
+				w.fail("EnterFence answered %q (batch %v)", res, descr)
+			}
+			w.fenceIdx = idx
+			w.outbox = append(w.outbox, verifC39Row{idx: idx, data: cmds[i].Data})
+			w.applied = append(w.applied, false)
+			w.acked = append(w.acked, false)
+			ph, fencedHere = 2, true
+			w.log = append(w.log, "FENCE")
+			if hBeforeFence > 0 {
+				w.nFenceWithEarlierH++
+			}
+			if w.capture && w.fwdOn {
+				forwards = append(forwards, expFwd{len(w.outbox) - 1, it.fwd})
+			} else {
+				stopFence = true
+			}
+		case "refence":
+			// a fence that is already set stays as it is: no new row, no new index
+			if res != ApplyResultOK {
+				w.fail("re-issued EnterFence answered %q (batch %v)", res, descr)
+			}
+			w.nReFence++
+			if fencedHere {
+				w.nFenceWithReFence++
+			}
+			w.log = append(w.log, "REFENCE")
+		case "ack":
+			if res != ApplyResultOK {
+				w.fail("replicated ack of index %d answered %q (batch %v)", w.outbox[it.ackPos].idx, res, descr)
+			}
+			w.acked[it.ackPos] = true
+			w.nAck++
+			ackSeen = true
+			if len(items) > 1 {
+				w.nAckInBatch++
+			}
+			w.log = append(w.log, fmt.Sprintf("ACK[%d]", it.ackPos))
+		}
+	}
+	w.phase = ph
+
+	w.checkEqual("after the source applied "+fmt.Sprint(descr), w.dbS, verifC39H, w.model)
+	if ctlTouched {
+		w.checkEqual("after the source applied "+fmt.Sprint(descr)+" (non-migrating hash slot)", w.dbS, verifC39Ctl, w.ctl)
+	}
+	w.expectOutbox()
+
+	// the forwarder is called once per committed outbox row, in order
+	got := w.fwds
+	w.fwds = nil
+	if len(got) != len(forwards) {
+		w.fail("source batch %v called the delta forwarder %d times, want %d (once per outbox row it produced)", descr, len(got), len(forwards))
+	}
+	for i, f := range forwards {
+		row := w.outbox[f.pos]
+		if got[i].Index != row.idx || !bytes.Equal(got[i].Data, row.data) || got[i].SlotID != verifC39Src {
+			w.fail("forwarded delta is (slot %d index %d, %d bytes), want the committed command (slot %d index %d, %d bytes)",
+				got[i].SlotID, got[i].Index, len(got[i].Data), verifC39Src, row.idx, len(row.data))
+		}
+	}
+	for _, f := range forwards {
+		w.routeForward(f.pos, f.mode)
+	}
+	if stopFence {
+		w.snapshotToTarget()
+	}
 }
 
 func (w *verifC39World) checkEqual(what string, db *metadb.DB, hs uint16, want *verifC39Model) {
@@ -497,6 +748,28 @@ func (w *verifC39World) expectOutbox() {
 			w.fail("source outbox row %d is (index %d, %d bytes), want (index %d, %d bytes)", i, r.SourceIndex, len(r.Data), want[i].idx, len(want[i].data))
 		}
 	}
+	w.expectMigState()
+}
+
+// expectMigState: once the migration produced an outbox row, the durable
+// migration state names the last outbox index, the fence index (0 = not fenced)
+// and the highest acked index.
+func (w *verifC39World) expectMigState() {
+	if w.cleaned || len(w.outbox) == 0 {
+		return
+	}
+	maxAcked := uint64(0)
+	for p, r := range w.outbox {
+		if w.acked[p] {
+			maxAcked = r.idx
+		}
+	}
+	last := w.outbox[len(w.outbox)-1].idx
+	st, ok := w.migState()
+	if !ok || st.SourceSlot != verifC39Src || st.TargetSlot != verifC39Tgt || st.LastOutboxIndex != last || st.FenceIndex != w.fenceIdx || st.LastAckedIndex != maxAcked {
+		w.fail("durable migration state is %+v (present=%v), want source %d target %d LastOutboxIndex %d FenceIndex %d LastAckedIndex %d",
+			st, ok, verifC39Src, verifC39Tgt, last, w.fenceIdx, maxAcked)
+	}
 }
 
 func (w *verifC39World) expectAppliedRecords() {
@@ -523,34 +796,47 @@ func (w *verifC39World) expectAppliedRecords() {
 	}
 }
 
-// footprint names the key a write touches; writes with different footprints
-// commute (the subscriber count lives in the channel row, so channel upserts
-// and subscriber changes of one channel share a footprint). The fence marker
+// footprints names the keys of the migrating hash slot a row touches; rows
+// with disjoint footprints commute (the subscriber count lives in the channel
+// row, so channel upserts and subscriber changes of one channel share a
+// footprint; channel-latest rows are a table of their own). The fence marker
 // changes nothing at the target.
-func (r verifC39Row) footprint() string {
+func (r verifC39Row) footprints() []string {
 	if r.write == nil {
-		return ""
+		return nil
 	}
 	switch r.write.kind {
 	case "user":
-		return "u:" + r.write.user.UID
+		return []string{"u:" + r.write.user.UID}
 	case "channel":
-		return "c:" + r.write.ch.ChannelID
+		return []string{"c:" + r.write.ch.ChannelID}
+	case "latest", "latestBatch":
+		var out []string
+		for _, it := range r.write.items {
+			if it.HashSlot == verifC39H {
+				out = append(out, "l:"+it.Latest.ChannelID)
+			}
+		}
+		return out
 	}
-	return "c:" + r.write.chID
+	return []string{"c:" + r.write.chID}
 }
 
 // canFirstDeliver: position p may be applied at the target for the first time
-// when every earlier row that is still undelivered touches a different key.
+// when every earlier row that is still undelivered touches different keys.
 func (w *verifC39World) canFirstDeliver(p int) (ok bool, overtakes bool) {
-	fp := w.outbox[p].footprint()
+	fps := w.outbox[p].footprints()
 	for q := 0; q < p; q++ {
 		if w.applied[q] {
 			continue
 		}
 		overtakes = true
-		if fp != "" && fp == w.outbox[q].footprint() {
-			return false, true
+		for _, a := range fps {
+			for _, b := range w.outbox[q].footprints() {
+				if a == b {
+					return false, true
+				}
+			}
 		}
 	}
 	return true, overtakes
@@ -602,8 +888,7 @@ func (w *verifC39World) genSiblings() []*verifC39Sib {
 		nOwn = 1
 	}
 	for i := 0; i < nOwn; i++ {
-		w.serial++
-		wr := verifC39GenWrite(rt, w.serial)
+		wr := verifC39GenWrite(rt, &w.serial, verifC39TgtOwn, -1)
 		sibs = append(sibs, &verifC39Sib{kind: "own", wr: wr, data: wr.encode()})
 	}
 	if mix >= 6 {
@@ -730,13 +1015,20 @@ func (w *verifC39World) deliver(what string, positions []int) {
 				firsts++
 				if wr := row.write; wr != nil {
 					w.tmodel.apply(*wr)
+					if wr.kind == "latestBatch" && wr.splitRows(verifC39H) {
+						w.nLatestSplitFirst++
+					}
 				}
 				prefixStates = append(prefixStates, w.tmodel.describe())
 			}
 			continue
 		}
 		sb := it.sib
-		cmds = append(cmds, multiraft.Command{SlotID: verifC39Tgt, HashSlot: verifC39TgtOwn, Index: w.tIdx, Term: 1, Data: sb.data})
+		sibHS := verifC39TgtOwn
+		if sb.kind == "own" {
+			sibHS = sb.wr.envelope()
+		}
+		cmds = append(cmds, multiraft.Command{SlotID: verifC39Tgt, HashSlot: sibHS, Index: w.tIdx, Term: 1, Data: sb.data})
 		switch sb.kind {
 		case "own":
 			w.own.apply(sb.wr)
@@ -928,8 +1220,34 @@ func (w *verifC39World) appliedPositions() []int {
 
 func (w *verifC39World) actWriteH(rt *rapid.T) {
 	w.rt = rt
-	w.serial++
-	w.writeH(rt, verifC39GenWrite(rt, w.serial), w.drawFwd("liveForward"))
+	other := int(verifC39Ctl) // the second hash slot of whichever slot owns the migrating one
+	if w.phase == 3 {
+		other = int(verifC39TgtOwn)
+	}
+	w.writeH(rt, verifC39GenWrite(rt, &w.serial, verifC39H, other), w.drawFwd("liveForward"))
+}
+
+// actSrcBatch: several commands reach the source state machine in one apply
+// batch; when the fence is due it may be one of them, at any position.
+func (w *verifC39World) actSrcBatch(rt *rapid.T) {
+	w.rt = rt
+	if w.phase == 3 {
+		rt.Skip()
+	}
+	if w.fenceDue() && rapid.IntRange(0, 9).Draw(rt, "batchWithFence") < 4 {
+		w.fence()
+		return
+	}
+	n := rapid.IntRange(2, 4).Draw(rt, "srcBatchN")
+	items, taken := make([]verifC39SrcItem, 0, n), map[int]bool{}
+	for i := 0; i < n; i++ {
+		items = append(items, w.genSrcItem(w.phase == 2, taken))
+	}
+	w.srcBatch(items)
+}
+
+func (w *verifC39World) fenceDue() bool {
+	return (w.phase == 0 && w.stopVar) || (w.phase == 1 && w.nDeltaWrites >= w.wantDelta)
 }
 
 // actBurst: several delta-phase writes to the SAME key with different values,
@@ -949,11 +1267,11 @@ func (w *verifC39World) actBurst(rt *rapid.T) {
 		var wr verifC39Write
 		switch kind {
 		case 0:
-			wr = verifC39Write{kind: "user", user: metadb.User{UID: uid, Token: fmt.Sprintf("tok-%d", w.serial), DeviceFlag: int64(i)}}
+			wr = verifC39Write{kind: "user", hs: verifC39H, user: metadb.User{UID: uid, Token: fmt.Sprintf("tok-%d", w.serial), DeviceFlag: int64(i)}}
 		case 1:
-			wr = verifC39Write{kind: "channel", ch: metadb.Channel{ChannelID: ch, ChannelType: verifC39ChType, Ban: int64(w.serial), Large: int64(i % 2)}}
+			wr = verifC39Write{kind: "channel", hs: verifC39H, ch: metadb.Channel{ChannelID: ch, ChannelType: verifC39ChType, Ban: int64(w.serial), Large: int64(i % 2)}}
 		default:
-			wr = verifC39Write{kind: []string{"addSubs", "removeSubs"}[i%2], chID: ch, uids: []string{uid}}
+			wr = verifC39Write{kind: []string{"addSubs", "removeSubs"}[i%2], hs: verifC39H, chID: ch, uids: []string{uid}}
 		}
 		w.writeH(rt, wr, verifC39FwdLost)
 	}
@@ -965,7 +1283,7 @@ func (w *verifC39World) writeH(rt *rapid.T, wr verifC39Write, fwd int) {
 	if w.phase == 3 {
 		// the target owns the hash slot now
 		w.tIdx++
-		out, err := w.tgt.Apply(context.Background(), multiraft.Command{SlotID: verifC39Tgt, HashSlot: verifC39H, Index: w.tIdx, Term: 1, Data: wr.encode()})
+		out, err := w.tgt.Apply(context.Background(), multiraft.Command{SlotID: verifC39Tgt, HashSlot: wr.envelope(), Index: w.tIdx, Term: 1, Data: wr.encode()})
 		w.log = append(w.log, "T:"+wr.String())
 		if err != nil || string(out) == ApplyResultHashSlotFenced || string(out) == ApplyResultStaleMeta {
 			w.fail("new owner refused an ordinary write after the switch: %q %v", out, err)
@@ -974,42 +1292,16 @@ func (w *verifC39World) writeH(rt *rapid.T, wr verifC39Write, fwd int) {
 		w.tmodel.apply(wr)
 		w.nDoneWrites++
 		w.checkEqual("after write at the new owner", w.dbT, verifC39H, w.model)
-		return
-	}
-	before := verifC39ReadHS(rt, w.dbS, verifC39H)
-	res, err := w.srcApply(verifC39H, wr.encode())
-	if err != nil {
-		w.fail("owner refused ordinary write %s with error %v", wr, err)
-	}
-	if w.phase == 2 {
-		w.log = append(w.log, "S!"+wr.String())
-		if res != ApplyResultHashSlotFenced {
-			w.fail("write %s after the fence answered %q, want %q", wr, res, ApplyResultHashSlotFenced)
+		if wr.touches(verifC39TgtOwn) {
+			w.own.apply(wr)
+			w.checkEqual("after write at the new owner (its other hash slot)", w.dbT, verifC39TgtOwn, w.own)
 		}
-		w.checkEqual("after fenced write", w.dbS, verifC39H, before)
-		w.expectOutbox()
-		w.nFenced++
+		if wr.kind == "latestBatch" && wr.splitRows(verifC39H) {
+			w.nLatestSplitNewOwner++
+		}
 		return
 	}
-	w.log = append(w.log, "S:"+wr.String())
-	if res == ApplyResultHashSlotFenced || res == ApplyResultStaleMeta {
-		w.fail("write %s before the fence answered %q", wr, res)
-	}
-	w.model.apply(wr)
-	w.checkEqual("after write at the source", w.dbS, verifC39H, w.model)
-	if w.phase == 0 {
-		w.nPreWrites++
-		return
-	}
-	w.nDeltaWrites++
-	w.outbox = append(w.outbox, verifC39Row{idx: w.sIdx, data: wr.encode(), write: &wr})
-	w.applied = append(w.applied, false)
-	w.acked = append(w.acked, false)
-	w.expectOutbox()
-	if st, ok := w.migState(); !ok || st.LastOutboxIndex != w.sIdx || st.SourceSlot != verifC39Src || st.TargetSlot != verifC39Tgt {
-		w.fail("migration state after delta write at index %d is %+v (present=%v)", w.sIdx, st, ok)
-	}
-	w.afterSourceRow(fwd)
+	w.srcBatch([]verifC39SrcItem{{kind: "write", wr: wr, fwd: fwd}})
 }
 
 const (
@@ -1045,19 +1337,9 @@ func (w *verifC39World) forwardArrives(what string, pos int) bool {
 	return true
 }
 
-// afterSourceRow: the source state machine called the forwarder for the row
-// it just committed; each forward is delivered, lost or delayed on its own.
-func (w *verifC39World) afterSourceRow(fwd int) {
-	if w.pendFwd == nil {
-		return
-	}
-	got := w.pendFwd
-	w.pendFwd = nil
-	pos := len(w.outbox) - 1
-	if got.Index != w.outbox[pos].idx || !bytes.Equal(got.Data, w.outbox[pos].data) || got.SlotID != verifC39Src {
-		w.fail("forwarded delta is (slot %d index %d, %d bytes), want the committed command (slot %d index %d, %d bytes)",
-			got.SlotID, got.Index, len(got.Data), verifC39Src, w.outbox[pos].idx, len(w.outbox[pos].data))
-	}
+// routeForward: the source state machine called the forwarder for the outbox
+// row at pos; each forward is delivered, lost or delayed on its own.
+func (w *verifC39World) routeForward(pos int, fwd int) {
 	switch fwd {
 	case verifC39FwdLive:
 		if w.forwardArrives("live", pos) {
@@ -1098,45 +1380,33 @@ func (w *verifC39World) actLateForward(rt *rapid.T) {
 
 func (w *verifC39World) actWriteCtl(rt *rapid.T) {
 	w.rt = rt
-	w.serial++
-	wr := verifC39GenWrite(rt, w.serial)
-	res, err := w.srcApply(verifC39Ctl, wr.encode())
-	w.log = append(w.log, "ctl:"+wr.String())
-	if err != nil || res == ApplyResultHashSlotFenced || res == ApplyResultStaleMeta {
-		w.fail("write to the non-migrating hash slot %d answered %q %v", verifC39Ctl, res, err)
-	}
-	if w.pendFwd != nil {
-		w.fail("write to the non-migrating hash slot was forwarded as a delta")
-	}
-	w.ctl.apply(wr)
-	w.checkEqual("after control write", w.dbS, verifC39Ctl, w.ctl)
-	w.expectOutbox()
-	w.nCtl++
+	w.srcBatch([]verifC39SrcItem{{kind: "write", wr: verifC39GenWrite(rt, &w.serial, verifC39Ctl, -1)}})
 }
 
 func (w *verifC39World) actMisrouted(rt *rapid.T) {
 	w.rt = rt
-	w.serial++
-	wr := verifC39GenWrite(rt, w.serial)
 	if w.phase == 3 {
-		before := verifC39ReadHS(rt, w.dbS, verifC39H)
-		res, err := w.srcApply(verifC39H, wr.encode())
+		wr := verifC39GenWrite(rt, &w.serial, verifC39H, int(verifC39Ctl))
+		res, err := w.srcApply(wr.envelope(), wr.encode())
 		w.log = append(w.log, "S?"+wr.String())
 		if err == nil && res != ApplyResultHashSlotFenced {
 			w.fail("old owner accepted ordinary write %s for the hash slot it no longer owns (result %q)", wr, res)
 		}
-		w.checkEqual("after misrouted write at the old owner", w.dbS, verifC39H, before)
+		w.checkEqual("after misrouted write at the old owner", w.dbS, verifC39H, w.model)
+		w.checkEqual("after misrouted write at the old owner (its own hash slot)", w.dbS, verifC39Ctl, w.ctl)
 		w.nMisPost++
 		return
 	}
+	wr := verifC39GenWrite(rt, &w.serial, verifC39H, int(verifC39TgtOwn))
 	before := verifC39ReadHS(rt, w.dbT, verifC39H)
 	w.tIdx++
-	out, err := w.tgt.Apply(context.Background(), multiraft.Command{SlotID: verifC39Tgt, HashSlot: verifC39H, Index: w.tIdx, Term: 1, Data: wr.encode()})
+	out, err := w.tgt.Apply(context.Background(), multiraft.Command{SlotID: verifC39Tgt, HashSlot: wr.envelope(), Index: w.tIdx, Term: 1, Data: wr.encode()})
 	w.log = append(w.log, "T?"+wr.String())
 	if err == nil {
 		w.fail("slot %d accepted ordinary write %s for hash slot %d it does not own (result %q)", verifC39Tgt, wr, verifC39H, out)
 	}
 	w.checkEqual("after misrouted write at the future owner", w.dbT, verifC39H, before)
+	w.checkEqual("after misrouted write at the future owner (its own hash slot)", w.dbT, verifC39TgtOwn, w.own)
 	w.nMisPre++
 }
 
@@ -1161,35 +1431,27 @@ func (w *verifC39World) snapshotToTarget() {
 	w.checkEqual("after snapshot import", w.dbT, verifC39H, w.tmodel)
 }
 
+// fence issues the enter-fence command: on its own, or in one source apply
+// batch with commands ordered before and after it (a client write racing with
+// the fence proposal is enough for that).
 func (w *verifC39World) fence() {
-	var data []byte
-	if w.capture {
-		data = EncodeEnterFenceCommand(verifC39H)
-	} else {
-		data = EncodeEnterFenceCommandForTarget(verifC39H, verifC39Tgt)
+	rt := w.rt
+	before, after := 0, 0
+	if rapid.IntRange(0, 9).Draw(rt, "fenceCompany") >= 4 {
+		before, after = rapid.IntRange(0, 2).Draw(rt, "beforeFence"), rapid.IntRange(0, 2).Draw(rt, "afterFence")
 	}
-	res, err := w.srcApply(verifC39H, data)
-	if err != nil || res != ApplyResultOK {
-		w.fail("EnterFence answered %q %v", res, err)
+	var items []verifC39SrcItem
+	taken := map[int]bool{}
+	for i := 0; i < before; i++ {
+		items = append(items, w.genSrcItem(false, taken))
 	}
-	w.fenceIdx = w.sIdx
-	w.outbox = append(w.outbox, verifC39Row{idx: w.sIdx, data: data})
-	w.applied = append(w.applied, false)
-	w.acked = append(w.acked, false)
-	w.phase = 2
-	w.log = append(w.log, "FENCE")
-	st, ok := w.migState()
-	if !ok || st.FenceIndex != w.fenceIdx || st.LastOutboxIndex != w.fenceIdx {
-		w.fail("migration state after fence at index %d is %+v (present=%v)", w.fenceIdx, st, ok)
+	items = append(items, verifC39SrcItem{kind: "fence", fwd: w.drawFwd("liveFence")})
+	for i := 0; i < after; i++ {
+		items = append(items, w.genSrcItem(true, taken))
 	}
-	w.expectOutbox()
-	if w.capture {
-		w.afterSourceRow(w.drawFwd("liveFence"))
-	} else {
-		if w.pendFwd != nil {
-			w.fail("snapshot-phase fence was forwarded before the target accepts deltas")
-		}
-		w.snapshotToTarget()
+	w.srcBatch(items)
+	if w.phase != 2 {
+		rt.Fatalf("VERIF-MACHINERY fence batch left the harness in phase %d", w.phase)
 	}
 }
 
@@ -1421,18 +1683,11 @@ func (w *verifC39World) actReFence(rt *rapid.T) {
 	if w.capture && rapid.Bool().Draw(rt, "plainFence") {
 		data = EncodeEnterFenceCommand(verifC39H)
 	}
-	res, err := w.srcApply(verifC39H, data)
-	if err != nil || res != ApplyResultOK {
-		w.fail("re-issued EnterFence answered %q %v", res, err)
-	}
+	w.srcBatch([]verifC39SrcItem{{kind: "refence", data: data}})
 	after, _ := w.migState()
 	if before != after {
 		w.fail("re-issued EnterFence changed the migration state from %+v to %+v", before, after)
 	}
-	w.pendFwd = nil
-	w.expectOutbox()
-	w.nReFence++
-	w.log = append(w.log, "REFENCE")
 }
 
 func (w *verifC39World) actCleanup(rt *rapid.T) {
@@ -1497,7 +1752,7 @@ func TestVerifC39Migration(t *testing.T) {
 		}
 		defer dbT.Close()
 		w := &verifC39World{rt: rt, dbS: dbS, dbT: dbT, srcOwned: []uint16{verifC39H, verifC39Ctl}, tgtOwned: []uint16{verifC39TgtOwn},
-			model: verifC39NewModel(), ctl: verifC39NewModel(), own: verifC39NewModel(), tasks: map[string]metadb.ChannelMigrationTask{},
+			model: verifC39NewModel(verifC39H), ctl: verifC39NewModel(verifC39Ctl), own: verifC39NewModel(verifC39TgtOwn), tasks: map[string]metadb.ChannelMigrationTask{},
 			now: 1750000001000, stopVar: rapid.IntRange(0, 9).Draw(rt, "variant") < 2,
 			wantDelta: rapid.IntRange(0, 7).Draw(rt, "wantDelta")}
 		w.src = w.newSM(dbS, verifC39Src, w.srcOwned)
@@ -1524,6 +1779,8 @@ func TestVerifC39Migration(t *testing.T) {
 			"burst":         w.actBurst,
 			"lateForward":   w.actLateForward,
 			"ack2":          w.actAck,
+			"srcBatch":      w.actSrcBatch,
+			"srcBatch2":     w.actSrcBatch,
 		})
 		dupsBeforeFinish, dupsAfterSwitch := w.nDup, w.nDupAfterSwitch
 		w.finish(rt)
@@ -1569,6 +1826,19 @@ func TestVerifC39Migration(t *testing.T) {
 		k.LabelIf(w.nMisPre > 0, "ordinary write sent to the future owner before the switch")
 		k.LabelIf(w.nMisPost > 0, "ordinary write sent to the old owner after the switch")
 		k.LabelIf(w.nCtl > 0, "writes to the non-migrating hash slot")
+		k.LabelIf(w.nSrcBatch > 0, "source apply batch of >= 2 commands")
+		k.LabelIf(w.nFenceWithLaterH > 0, "fence and a later write for the migrating hash slot in one source apply batch")
+		k.LabelIf(w.nFenceWithEarlierH > 0, "fence and an earlier accepted write for the migrating hash slot in one source apply batch")
+		k.LabelIf(w.nFenceWithReFence > 0, "fence and a re-issued fence in one source apply batch")
+		k.LabelIf(w.nAckInBatch > 0, "replicated ack shares a source apply batch with other commands")
+		k.LabelIf(w.nAckThenWrite > 0, "accepted write ordered after an ack in one source apply batch")
+		k.LabelIf(w.nLatest > 0, "channel-latest writes accepted for the migrating hash slot")
+		k.LabelIf(w.nLatestBatchDelta > 0, "channel-latest batch accepted in the delta phase")
+		k.LabelIf(w.nLatestSplitDelta > 0, "delta-phase channel-latest batch with non-contiguous rows of the migrating hash slot")
+		k.LabelIf(w.nLatestSplitFirst > 0, "non-contiguous channel-latest batch replayed at the target through apply_delta")
+		k.LabelIf(w.nLatestCtlEnvelope > 0, "delta-phase channel-latest batch routed with the other hash slot as envelope")
+		k.LabelIf(w.nLatestBatchFenced > 0, "channel-latest batch refused while fenced")
+		k.LabelIf(w.nLatestSplitNewOwner > 0, "non-contiguous channel-latest batch at the new owner after the switch")
 		logc := append([]string(nil), w.log...)
 		k.Sample(func() any { return strings.Join(logc, " ; ") })
 	})
